@@ -90,8 +90,14 @@ deriving Repr, Inhabited
 /-- derived `PartialEq for BoundSet` -/
 def BoundSet.beq (a b : BoundSet) : Bool := a.upper.beq b.upper && a.lower.beq b.lower
 
-/-- `BoundSet::new` -/
-def BoundSet.new (l u : Bound) : Option BoundSet :=
+/-- `Bound::is_valid`: no component of the bound's version exceeds MAX_SAFE_INTEGER -/
+def Bound.isValid : Bound → Bool
+  | lo (inc v) | lo (exc v) | up (inc v) | up (exc v) =>
+    decide (v.major ≤ MAX_SAFE_INTEGER) && decide (v.minor ≤ MAX_SAFE_INTEGER) && decide (v.patch ≤ MAX_SAFE_INTEGER)
+  | _ => true
+
+/-- the `match` of `BoundSet::new` (after the validity check) -/
+def BoundSet.newCore (l u : Bound) : Option BoundSet :=
   let general : Option BoundSet := if l.lt u then some ⟨u, l⟩ else none
   match l, u with
   | lo (exc v1), up (inc v2) => if v1.beq v2 then none else general
@@ -99,6 +105,10 @@ def BoundSet.new (l u : Bound) : Option BoundSet :=
   | lo (inc v1), up (inc v2) =>
     if v1.beq v2 then some ⟨up (inc v2), lo (inc v1)⟩ else general
   | _, _ => general
+
+/-- `BoundSet::new` -/
+def BoundSet.new (l u : Bound) : Option BoundSet :=
+  if !l.isValid || !u.isValid then none else BoundSet.newCore l u
 
 def BoundSet.atLeast (p : Pred) : Option BoundSet := BoundSet.new (lo p) (up unb)
 def BoundSet.atMost (p : Pred) : Option BoundSet := BoundSet.new (lo unb) (up p)
